@@ -38,11 +38,13 @@ pub fn job_source(j: usize) -> String {
             let id = long_ident();
             format!("fn dsp(x) {{\n  let {id} = x + 1.0\n  {id} * 2.0\n}}\n")
         }
+        8 => "#stage(macro)\nfn twice() {\n  `{ 2.0 }\n}\n#stage(main)\nfn nest(x) {\n  let (((a2, b2), (a1, b1)), (a0, b0)) = (((x, 2.0), (3.0, 4.0)), (5.0, 6.0))\n  a2 * 100000.0 + b2 * 10000.0 + a1 * 1000.0 + b1 * 100.0 + a0 * 10.0 + b0\n}\nfn dsp(x) {\n  nest(x) * twice!()\n}\n".into(),
+        9 => "#stage(macro)\nfn thrice() {\n  `{ 3.0 }\n}\n#stage(main)\nfn flat(x) {\n  let (p0, q0) = (x, 2.0)\n  let (p1, q1) = (q0, p0)\n  p1 * 10.0 + q1\n}\nfn dsp(x) {\n  flat(x) * thrice!()\n}\n".into(),
         _ => "type Dir = Up | Down | Left(float)\ntype alias Pt = {px:float, py:float}\nfn f(d: Dir) {\n  match d {\n    Up => 1.0,\n    Down => 2.0,\n    Left(v) => v\n  }\n}\nfn norm(p: Pt) {\n  p.px * p.px + p.py\n}\nfn dsp(x) {\n  f(Left(x)) + norm({px = x, py = 2.0}) + min(x, 1.0) + sqrt(abs(x))\n}\n".into(),
     }
 }
-pub const JOB_NAMES: [&str; 8] = ["counter", "counter_again", "shared_identifiers", "syntax_error", "type_error", "macro", "huge_identifier", "types_and_builtins"];
-pub const NJOBS: usize = 8;
+pub const JOB_NAMES: [&str; 10] = ["counter", "counter_again", "shared_identifiers", "syntax_error", "type_error", "macro", "huge_identifier", "types_and_builtins", "macro_nested_tuple_let", "macro_flat_tuple_let"];
+pub const NJOBS: usize = 10;
 
 /// what a job observes: diagnostics or outputs (and the WASM module hash)
 pub fn run_job(j: usize) -> String {
@@ -150,14 +152,58 @@ fn hook(_kind: u32) {
         }
     }
 }
+#[derive(serde::Serialize, serde::Deserialize)]
 pub struct ExecResult {
     pub obs: [String; 2],
     pub points: [u64; 2],
     pub deadlock: bool,
     pub preemptions_taken: usize,
 }
-/// run jobs (ja, jb) on two threads under `plan`; `first` gets the baton first
+/// Run one schedule in a forked copy of this process. Every execution then starts from exactly the same process
+/// state (interner contents, node ids, allocator state, HashMap seeds - see main.rs getrandom), which the parent
+/// never changes after its warm-up; the same schedule therefore gives the same execution, point for point, and a
+/// crash or a sanitizer abort of one schedule is contained in its child.
 pub fn execute(ja: usize, jb: usize, first: usize, plan: Vec<(usize, u64)>) -> ExecResult {
+    use std::io::Read;
+    use std::os::fd::FromRawFd;
+    let mut fds = [0i32; 2];
+    if unsafe { libc::pipe(fds.as_mut_ptr()) } != 0 {
+        panic!("pipe failed");
+    }
+    let pid = unsafe { libc::fork() };
+    if pid < 0 {
+        panic!("fork failed");
+    }
+    if pid == 0 {
+        unsafe { libc::close(fds[0]) };
+        let r = execute_inproc(ja, jb, first, plan);
+        let bytes = serde_json::to_vec(&r).unwrap_or_default();
+        let mut off = 0;
+        while off < bytes.len() {
+            let n = unsafe { libc::write(fds[1], bytes[off..].as_ptr() as *const libc::c_void, bytes.len() - off) };
+            if n <= 0 {
+                break;
+            }
+            off += n as usize;
+        }
+        unsafe { libc::_exit(0) };
+    }
+    unsafe { libc::close(fds[1]) };
+    let mut f = unsafe { std::fs::File::from_raw_fd(fds[0]) };
+    let mut buf = vec![];
+    let _ = f.read_to_end(&mut buf);
+    let mut st = 0i32;
+    unsafe { libc::waitpid(pid, &mut st, 0) };
+    match serde_json::from_slice::<ExecResult>(&buf) {
+        Ok(r) if libc::WIFEXITED(st) && libc::WEXITSTATUS(st) == 0 => r,
+        _ => {
+            let what = if libc::WIFSIGNALED(st) { format!("PROCESS CRASH signal {}", libc::WTERMSIG(st)) } else { format!("PROCESS CRASH wait status {st}") };
+            ExecResult { obs: [what.clone(), what], points: [0, 0], deadlock: false, preemptions_taken: 0 }
+        }
+    }
+}
+/// run jobs (ja, jb) on two threads under `plan`; `first` gets the baton first
+pub fn execute_inproc(ja: usize, jb: usize, first: usize, plan: Vec<(usize, u64)>) -> ExecResult {
     verif_hooks::set_sched_hook(Some(hook));
     let sh = shared().clone();
     {
@@ -206,13 +252,16 @@ pub fn execute(ja: usize, jb: usize, first: usize, plan: Vec<(usize, u64)>) -> E
 // ---------------------------------------------------------------- space
 
 /// solo observation and number of scheduling points of every job (deterministic, measured per process)
-fn solo() -> &'static Vec<(String, u64)> {
+pub fn solo() -> &'static Vec<(String, u64)> {
     static S: OnceLock<Vec<(String, u64)>> = OnceLock::new();
     S.get_or_init(|| {
+        // warm-up in this process: the first compilation interns the builtin names, and every job's own names are
+        // interned too, so that the frozen state every schedule is forked from does not depend on the job pair
+        for j in 0..NJOBS {
+            let _ = execute_inproc(j, 0, 0, vec![]);
+        }
         (0..NJOBS)
             .map(|j| {
-                // warm-up run: the first compilation in a process interns the builtin names
-                let _ = execute(j, 0, 0, vec![]);
                 let r = execute(j, 0, 0, vec![]);
                 (r.obs[0].clone(), r.points[0])
             })
@@ -309,11 +358,12 @@ impl Prop for C19 {
             // determinism of the harness: the same schedule twice
             let r1 = execute(ja, jb, 0, vec![(0, 5)]);
             let r2 = execute(ja, jb, 0, vec![(0, 5)]);
-            // The observations must replay exactly. The number of scheduling points may jitter by a few
-            // operations between executions: HashMap iteration order (RandomState, which the harness cannot own)
-            // changes how many interner calls some sorts and lookups make; more than 1% is a machinery failure.
-            let jitter = (0..2).map(|t| r1.points[t].abs_diff(r2.points[t]) as f64 / r1.points[t].max(1) as f64).fold(0.0, f64::max);
-            if r1.obs != r2.obs || jitter > 0.01 {
+            // The observations and the numbers of scheduling points must replay exactly: the harness owns the scheduler
+            // and the HashMap seeds (VERIF_DET_RANDOM, main.rs getrandom), so nothing else may vary.
+            if std::env::var("VERIF_DET_RANDOM").is_err() {
+                fails.push(Fail { clause: "harness_panic".into(), detail: "VERIF_DET_RANDOM is not set: schedules would not be reproducible (run through ./check)".into() });
+            }
+            if r1.obs != r2.obs || r1.points != r2.points {
                 fails.push(Fail { clause: "harness_panic".into(), detail: format!("schedule replay diverged: {:?}/{:?}", r1.points, r2.points) });
             }
         } else {
@@ -363,7 +413,7 @@ impl Prop for C19 {
         let s = solo();
         Descr {
             rule: format!(
-                "K = 2 threads each run one job 'compile with ExecContext + run 4 samples on the VM + emit WASM (+ render diagnostics)' from a menu of {NJOBS} sources built to collide (identical sources, shared identifiers, a syntax error, a type error, a macro program (stage-0 VM + MIMIUM_CURRENT_MACRO_FILE), a 64 KiB identifier that forces the interner buffer to grow, types/enums/builtins); job pairs: {:?}. Scheduling points measured per job (solo): {:?}. A hand-rolled baton scheduler lets a thread lose control only at a scheduling point placed before every with_session_globals / env-var / file-cache access. Explored: bound 0 (both serial orders); bound 1: one preemption at every {}scheduling point of either thread; thorough additionally bound 2 on jobs under 3000 points (second preemption at every 97th point of the other thread, for every 16th first point). Each schedule: both jobs' observations must equal their solo observations; a silent partner for 20 s is a deadlock. states/traces = schedules executed; transitions = scheduling points passed.",
+                "K = 2 threads each run one job 'compile with ExecContext + run 4 samples on the VM + emit WASM (+ render diagnostics)' from a menu of {NJOBS} sources built to collide (identical sources, shared identifiers, a syntax error, a type error, a macro program (stage-0 VM + MIMIUM_CURRENT_MACRO_FILE), a 64 KiB identifier that forces the interner buffer to grow, types/enums/builtins, two macro programs whose main-stage code goes through the staging translation with a nested resp. flat tuple let); job pairs: {:?}. Scheduling points measured per job (solo): {:?}. A hand-rolled baton scheduler lets a thread lose control only at a scheduling point placed before every with_session_globals / env-var / file-cache access. Explored: bound 0 (both serial orders); bound 1: one preemption at every {}scheduling point of either thread; thorough additionally bound 2 on jobs under 3000 points (second preemption at every 97th point of the other thread, for every 16th first point). Each schedule: both jobs' observations must equal their solo observations; a silent partner for 20 s is a deadlock. states/traces = schedules executed; transitions = scheduling points passed.",
                 pairs(tier).iter().map(|(a, b)| format!("{}+{}", JOB_NAMES[*a], JOB_NAMES[*b])).collect::<Vec<_>>(),
                 s.iter().map(|x| x.1).collect::<Vec<_>>(),
                 if tier == Tier::Quick { "16th " } else { "" }
@@ -371,7 +421,7 @@ impl Prop for C19 {
             assumptions: vec![
                 "interleavings are sequentially consistent at hook granularity; accesses to shared state that bypass the hooked entry points (none found by reading: the interner mutex, the TypeVar RwLocks owned by one compilation, the file cache, the macro-file env var) would be invisible".into(),
                 "unsynchronised memory effects (e.g. a &str from Symbol::as_str outliving a reallocation of the interner buffer) are not detectable by a cooperative scheduler unless they change an observation; no sanitizer pass is part of this check".into(),
-                "scheduling points are numbered per thread; their count jitters by a few operations between executions (HashMap iteration order influences the number of interner calls), so a schedule is identified up to that jitter".into(),
+                "scheduling points are numbered per thread; every schedule runs in a fork of the same warmed-up worker process with the HashMap seeds fixed by the harness (getrandom is interposed), so a schedule (job pair, first thread, preemption points) identifies one execution exactly: the determinism probe replays one schedule and requires identical observations and identical point counts".into(),
                 "wasmtime is not run inside jobs (its own worker threads are outside the scheduler); the WASM generator is".into(),
             ],
             bounds: json!({"threads": 2, "preemption_bound_complete": if tier == Tier::Quick { "1 at every 16th point" } else { "1" }, "jobs": NJOBS, "points_per_job": s.iter().map(|x| x.1).collect::<Vec<_>>()}),
